@@ -1,0 +1,69 @@
+//! Verification hook (compiled only with `--cfg era_consensus_verif`): address book, fetch queue, gossip handshake.
+#![allow(missing_docs, unreachable_pub, private_interfaces, clippy::missing_docs_in_private_items)]
+use std::sync::Arc;
+
+use zksync_concurrency::{ctx, oneshot, sync};
+use zksync_consensus_engine::BlockStoreState;
+use zksync_consensus_roles::{node, validator};
+
+use super::{fetch, handshake, validator_addrs::ValidatorAddrsWatch};
+use crate::{verif::TcpNoise, Config};
+
+/// The validator address book.
+#[derive(Default)]
+pub struct AddrBook(ValidatorAddrsWatch);
+
+impl AddrBook {
+    pub async fn update(&self, validators: &validator::Schedule, data: &[Arc<validator::Signed<validator::NetAddress>>]) -> Result<(), String> {
+        self.0.update(validators, data).await.map_err(|e| format!("{e:#}"))
+    }
+    pub fn current(&self) -> Vec<(validator::PublicKey, Arc<validator::Signed<validator::NetAddress>>)> {
+        let mut v: Vec<_> = self.0.current().iter().map(|(k, v)| (k.clone(), v.clone())).collect();
+        v.sort_by(|a, b| a.0.cmp(&b.0));
+        v
+    }
+}
+
+/// The block fetch queue.
+#[derive(Default)]
+pub struct FetchQueue(fetch::Queue);
+
+/// Completion handle of an accepted request: `complete()` = block fetched; dropping it = the acceptor failed.
+pub struct Accepted {
+    pub number: u64,
+    done: oneshot::Sender<()>,
+}
+
+impl Accepted {
+    pub fn complete(self) {
+        let _ = self.done.send(());
+    }
+}
+
+impl FetchQueue {
+    pub async fn request(&self, ctx: &ctx::Ctx, n: u64) -> ctx::OrCanceled<()> {
+        self.0.request(ctx, fetch::RequestItem::Block(validator::BlockNumber(n))).await
+    }
+    pub async fn accept_block(&self, ctx: &ctx::Ctx, available: &mut sync::watch::Receiver<BlockStoreState>) -> ctx::OrCanceled<Accepted> {
+        let (n, done) = self.0.accept_block(ctx, available).await?;
+        Ok(Accepted { number: n.0, done })
+    }
+    pub fn current_blocks(&self) -> Vec<u64> {
+        self.0.current_blocks()
+    }
+}
+
+/// Gossip handshake, inbound side. Returns the attributed peer key.
+pub async fn handshake_inbound(ctx: &ctx::Ctx, cfg: &Config, genesis: validator::GenesisHash, stream: &mut TcpNoise) -> Result<node::PublicKey, String> {
+    handshake::inbound(ctx, cfg, genesis, &mut stream.0).await.map(|c| c.key.clone()).map_err(|e| format!("{e}"))
+}
+
+/// Gossip handshake, outbound side (dialled `peer`). Returns the attributed peer key.
+pub async fn handshake_outbound(ctx: &ctx::Ctx, cfg: &Config, genesis: validator::GenesisHash, stream: &mut TcpNoise, peer: &node::PublicKey) -> Result<node::PublicKey, String> {
+    handshake::outbound(ctx, cfg, genesis, &mut stream.0, peer).await.map(|c| c.key).map_err(|e| format!("{e}"))
+}
+
+/// Encoded gossip handshake message (what an attacker would put on the wire).
+pub fn handshake_bytes(session_id: node::Signed<node::SessionId>, genesis: validator::GenesisHash, is_static: bool) -> Vec<u8> {
+    zksync_protobuf::encode(&handshake::Handshake { session_id, genesis, is_static, build_version: None })
+}
